@@ -2,7 +2,7 @@
    step by step for the operations that fill or carry caches; natural parameters never depend on
    update_full or on earlier read-only queries; a cached value is THE value. *)
 From mathcomp Require Import all_ssreflect all_algebra.
-From GT Require Import Tensor DetExec LogDom Obj Factor Measure Pdf Cond EvalLemmas Spec C01_proofs PdfLemmas C04_proofs C05_proofs C06_proofs C0809_proofs C1013_proofs C12_proofs C15_proofs C07_proofs C04_prog.
+From GT Require Import Tensor DetExec LogDom Obj Factor Measure Pdf Cond EvalLemmas Spec C01_proofs PdfLemmas C04_proofs C05_proofs C06_proofs C0809_proofs C1013_proofs C12_proofs C15_proofs C07_proofs C04_prog Sample SPD Chol.
 Import GRing.Theory Num.Theory.
 Local Open Scope ring_scope.
 
@@ -73,7 +73,24 @@ Proof. exact: queries_transparent. Qed.
 Theorem C04_joint_transformation (c : cond LS) (p : measure LS) :
   pdf_ok p -> cond_ok c -> cDx c = uD p -> pdf_ok (affine_joint c p).
 Proof. exact: affine_joint_ok. Qed.
+
+(* utils/linalg.invert_matrix computes ln det A = 2 sum_j ln C_jj from a Cholesky factor C C' = A.  For EVERY symmetric
+   positive definite A and every dimension: the square-root-free factorisation A = L D L' (executable: proofs/Chol.v, ldl)
+   exists with unit lower triangular L and positive D; any Cholesky factor is C = L sqrt(D); hence the Cholesky-diagonal
+   log-determinant is the true one, and it is the value `hln (detn A)` the model computes. *)
+Theorem C04_ldl_factorisation n (A : mat F) : spd (mxf n n A) ->
+  let Lm := mxf n n (ldl n A).1 in let dm := diag_mx (\row_(j < n) (ldl n A).2 j) in
+  [/\ Lm *m dm *m Lm^T = mxf n n A, (forall i j : 'I_n, (i < j)%N -> Lm i j = 0), (forall i : 'I_n, Lm i i = 1)
+    & (forall j, (j < n)%N -> 0 < (ldl n A).2 j)].
+Proof. exact: ldl_correct. Qed.
+Theorem C04_cholesky_log_determinant n (A C : mat F) : spd (mxf n n A) -> is_chol n C A ->
+  suml n (fun j => hln LS (C j j * C j j)) = hln LS (\det (mxf n n A))
+  /\ suml n (fun j => hln LS (C j j * C j j)) = hln LS (detn n A)
+  /\ ldl_logdet_half LS n A = hln LS (detn n A).
+Proof. by move=> sA cC; split; [exact: chol_logdet | split; [exact: chol_logdet_detn | exact: ldl_logdet_detn]]. Qed.
 End C04.
+Print Assumptions C04_ldl_factorisation.
+Print Assumptions C04_cholesky_log_determinant.
 Print Assumptions C04_every_reachable_object_consistent.
 Print Assumptions C04_queries_transparent.
 Print Assumptions C04_joint_transformation.
